@@ -872,8 +872,26 @@ def run(ctx: Any, prog: Program) -> None:
                 okc = isinstance(arg, ast.Call) and isinstance(arg.func, ast.Attribute) and arg.func.attr == 'copy'
                 ctx.check('C09.P4', okc, kv, c, f'Keyvalues.{name} adds `{U(arg)}` without copying it: the other tree\'s node would be shared', func='Keyvalues.' + name)
 
+    # ... and the left side: what `a + b` returns holds copies of a's children too.  The result either starts as `self.copy()` or gets a child
+    # list built from `child.copy()`; `self._value + added`, `list(self._value)` or `self._value[:]` is a new list of the SAME child objects
+    af = kv.func('Keyvalues.__add__')
+    me_a = af.args.args[0].arg
+    n_left = 0
+    for a_ in walk_no_nested(af):
+        if isinstance(a_, ast.Assign) and any(isinstance(t, ast.Attribute) and t.attr == '_value' and not (isinstance(t.value, ast.Name) and t.value.id == me_a) for t in a_.targets):
+            n_left += 1
+            shares = [x for x in ast.walk(a_.value) if isinstance(x, ast.Attribute) and x.attr == '_value' and isinstance(x.value, ast.Name) and x.value.id == me_a]
+            copied = any(isinstance(c, ast.Call) and isinstance(c.func, ast.Attribute) and c.func.attr == 'copy' for c in ast.walk(a_.value))
+            ctx.check('C09.P4', not shares or copied, kv, a_, f'Keyvalues.__add__ gives its result the child list `{U(a_.value)[:60]}`: a new list, but its first elements are the left operand\'s own child objects - editing a '
+                      'nested keyvalue of the sum edits the operand (and every other sum built from it)', func='Keyvalues.__add__', text='__add__: left children copied')
+    starts_from_copy = any(isinstance(a_, ast.Assign) and isinstance(a_.value, ast.Call) and isinstance(a_.value.func, ast.Attribute) and a_.value.func.attr == 'copy' and dotted(a_.value.func.value) == me_a for a_ in walk_no_nested(af))
+    ctx.shape('C09.P4', starts_from_copy or n_left > 0, kv, af, 'Keyvalues.__add__ builds its result from self.copy() or assigns the result a child list', func='Keyvalues.__add__', text='__add__: result construction')
+    if starts_from_copy and not n_left:
+        ctx.check('C09.P4', True, kv, af, 'result starts as self.copy()', func='Keyvalues.__add__', text='__add__: left children copied')
+
 
 MUTANTS = [
+    {'id': 'kv_add_concatenates_own_children', 'file': 'keyvalues.py', 'find': "            copy = self.copy()\n            assert isinstance(copy._value, list)\n", 'replace': "            copy = Keyvalues.__new__(Keyvalues)\n            copy._real_name = self._real_name\n            copy._folded_name = self._folded_name\n            copy.line_num = self.line_num\n            copy._value = self._value + []\n", 'expect': 'C09.P4'},
     {'id': 'solid_copy_hands_sides_defaulted_map', 'file': 'vmf.py', 'find': "        sides = [\n            s.copy(-1, vmf_file, side_mapping)", 'replace': "        target = self.map if vmf_file is None else vmf_file\n        sides = [\n            s.copy(-1, target, side_mapping)", 'expect': 'C09.P7'},
     {'id': 'ok_solid_copy_alias_of_parameter', 'file': 'vmf.py', 'find': "        sides = [\n            s.copy(-1, vmf_file, side_mapping)", 'replace': "        target = vmf_file\n        sides = [\n            s.copy(-1, target, side_mapping)", 'expect': None, 'note': 'negative control: plain alias of the parameter'},
     {'id': 'visgroup_children_copied_without_map', 'file': 'vmf.py', 'find': "                child.copy(vmf, group_mapping)\n", 'replace': "                child.copy(group_mapping=group_mapping)\n", 'expect': 'C09.P7'},
